@@ -21,7 +21,7 @@ type c09 struct{}
 func (c09) ID() string { return "C09" }
 func (c09) Runs(tier string) int {
 	if tier == "heavy" {
-		return 64
+		return 96
 	}
 	if tier == "thorough" {
 		return 300000
@@ -241,6 +241,12 @@ func (c09) Run(ctx *core.RunCtx) {
 	// the bootstrapping circuit (seconds per run): thorough tier only, and rarely; tier "heavy": always
 	if ctx.Tier == "heavy" || ctx.Tier == "thorough" && ch.Chance("heavy-history", 1, 400) {
 		c09HeavyRun(ctx)
+		return
+	}
+	// the circuits on composite minimax polynomials (a tenth of a second to a second per run): every tier, rarely
+	if ch.Chance("circuits-history", 1, 100) {
+		ctx.Nontrivial = true
+		c09CircuitsRun(ctx, core.NewXoshiro(uint64(ch.Draw("content-seed", 1<<20))))
 		return
 	}
 	var sc *c09Scheme
